@@ -424,6 +424,45 @@ pub fn run(ctx: &mut Ctx) {
         }
         ctx.nontrivial(mix(&[91, idx as u64]));
     });
+    // the file at one path is replaced by another voice of exactly the same length and loaded
+    // again: what is loaded is what the file says *now* (both through load_htsvoice_file and
+    // through Engine::load)
+    let n = ctx.n(6, 60);
+    ctx.run_cases("same-path-reload", n, false, |ctx, rng, idx| {
+        let p = env.tmp_dir.join("reloaded.htsvoice");
+        let first = if idx % 2 == 0 { env.bundled_bytes.clone() } else { voicegen::perturb(&env.bundled_bytes, rng, 0.2) };
+        let second = voicegen::perturb(&env.bundled_bytes, rng, 0.3);
+        if first.len() != second.len() {
+            ctx.inconclusive("perturbed copy changed the file length");
+            return;
+        }
+        let labels = labels_for(&env, rng, 24);
+        for (round, bytes) in [&first, &second, &first].into_iter().enumerate() {
+            std::fs::write(&p, bytes).expect("write voice file");
+            let Ok(rv) = read_voice(bytes) else {
+                ctx.inconclusive("reference reader on a perturbed copy");
+                return;
+            };
+            let loaded = if (idx / 2 + round) % 2 == 0 { load_htsvoice_file(&p).map_err(|e| format!("{}", e)) } else { Engine::load(&[&p]).map(|e| (**e.voices.iter().next().unwrap()).clone()).map_err(|e| format!("{}", e)) };
+            match loaded {
+                Ok(v) => {
+                    let before = ctx.rep.violations.len();
+                    check_labels(ctx, &v, &rv, crate::rng::hash_bytes(bytes), &labels);
+                    if ctx.rep.violations.len() > before {
+                        ctx.violation("reloaded-path-gives-stale-voice", J::obj().set("round", round).set("what", "the file at the path was replaced by a voice of the same length before this load"));
+                        return;
+                    }
+                }
+                Err(e) => {
+                    ctx.violation("perturbed-voice-does-not-load", J::from(e));
+                    return;
+                }
+            }
+        }
+        ctx.count("same_path_reloads", 3.0);
+        ctx.nontrivial(mix(&[0x5a, idx as u64]));
+        env.remove(&p);
+    });
     let n = ctx.n(160, 8000);
     ctx.run_cases("synthetic", n, false, |ctx, rng, idx| {
         let mut o = VoiceOpts::random(rng);
